@@ -203,6 +203,52 @@ def run(ctx):
             ctx.fail("history", c, f"norm**2 = {float(ni*ni)!r} but sum of squares is {float(n2)!r}")
         if (m[0] != str(ro["dmin"]) or len(m[2]) != len(ro["coefs"])) and any(v != 0 for v in dm.values()):
             ctx.bucket("representation differs from the model's (diagnostic only)")
+    # ---- operand reuse: straight-line programs over shared objects; results as in the model, operands left unmodified
+    if ctx.replay is None or ctx.replay.get("site") == "reuse":
+        progs = []
+        for k in range(12 if quick else 150):
+            fam = rng.choice(["generic", "dyadic", "int"])
+            par = rng.randint(0, 1)
+            n = rng.randint(2, 6)
+            dmin = 2 * rng.randint(-4, 1) + par
+            a = [dmin, exprs.gen_vec(rng, fam, n, zeros=False)]
+            b = [dmin + 2 * rng.randint(0, 1), exprs.gen_vec(rng, fam, rng.randint(1, n - 1) if rng.random() < 0.5 else n - (0), zeros=False)]
+            if b[0] + 2 * (len(b[1]) - 1) > dmin + 2 * (n - 1):
+                b = [dmin, exprs.gen_vec(rng, fam, n, zeros=False)]
+            cc = [2 * rng.randint(-2, 2), exprs.gen_vec(rng, fam, rng.randint(1, 4), zeros=False)]
+            ops = [["add", 0, 1], ["add", 0, 1], ["mul", 0, 2], ["sub", 0, 1], ["add", 6, 1], ["add", 1, 0], ["sub", 0, 0], ["mul", 3, 0], ["add", 0, 3]]
+            progs.append({"lits": [a, b, cc], "ops": ops, "fam": fam})
+        if ctx.replay is not None:
+            progs = [ctx.replay["case"]]
+        pres = run_impl([{"fn": "preuse", "lits": [[l[0], [exprs.jnum(x) for x in l[1]]] for l in p_["lits"]], "ops": p_["ops"]} for p_ in progs])
+        plines, pkeep = [], []
+        for p_, r in zip(progs, pres):
+            ctx.count(["reuse", p_["lits"]], nontrivial=True, bucket="operand reuse")
+            if "exc" in r:
+                ctx.fail("reuse", p_, "a straight-line program over shared polynomials raised %s: %s" % (r["exc"], r.get("msg", "")[:80]))
+                continue
+            trees = [["lit", l[0], l[1]] for l in p_["lits"]]
+            for op, i, j in p_["ops"]:
+                trees.append([op, trees[i], trees[j]] if op in ("add", "sub", "mul") else [op, trees[i]])
+            for k, (l, after) in enumerate(zip(p_["lits"], r["ok"]["lits_after"])):
+                if [fr(x) for x in after["coefs"]] != [fr(x) for x in l[1]] or after["dmin"] != l[0]:
+                    ctx.fail("reuse", p_, "operand %d was modified by an operation that used it: coefficients %s became %s"
+                             % (k, [float(fr(x)) for x in l[1]][:6], [float(fr(x)) for x in after["coefs"]][:6]))
+                    break
+            else:
+                for t, res in zip(trees[len(p_["lits"]):], r["ok"]["results"]):
+                    plines.append("(peval %s)" % exprs.p_sexp(t))
+                    pkeep.append((p_, t, res))
+        pmod = run_model(plines)
+        for (p_, t, res), m in zip(pkeep, pmod):
+            if isinstance(m, str):
+                if m != "ERR":
+                    ctx.infra_fail("extracted model failed on a reuse program: " + m[:80])
+                continue
+            msg = exprs.compare_denot(exprs.denot_model(m), exprs.denot_impl(res), exprs.fmag(exprs.mag_p(t)), exprs.nops(t) + 2, False)
+            if msg:
+                ctx.fail("reuse", p_, "result of a step that reuses earlier operands: " + msg)
+                break
     # ---- aliasing: results are fresh objects; mutating a result (round_zeros) leaves the operands alone
     if ctx.replay is None or ctx.replay.get("site") == "alias":
         al = [c for c in cases if not c["malformed"] and c["e"][0] != "lit"][: (250 if quick else 3000)]
